@@ -1,12 +1,15 @@
 #!/usr/bin/env python3
 """Validate a candidate seeded change: applies patch.diff in a scratch worktree of /repo, runs the 144 tests,
-runs demo.py with and without the change.  Usage: seeded_validate.py <staging dir> <seeded id> <property> """
+runs demo.py with and without the change.  Usage: seeded_validate.py <staging dir> <seeded id> <property>
+DEMO_STYLE=pythonpath: the demonstration is run as PYTHONPATH=<checkout> python demo.py (batch 3); default: python demo.py <checkout>."""
 import json, os, shutil, subprocess, sys, tempfile
 src, sid, prop = sys.argv[1], sys.argv[2], sys.argv[3]
 wt = tempfile.mkdtemp(prefix='wt_val_', dir='/tmp')
 os.rmdir(wt)
+STYLE = os.environ.get('DEMO_STYLE', 'arg')
 def sh(cmd, cwd=None):
-    p = subprocess.run(cmd, shell=True, capture_output=True, text=True, cwd=cwd)
+    env = dict(os.environ, PYTHONPATH=wt) if STYLE == 'pythonpath' else None
+    p = subprocess.run('timeout 900 ' + cmd if cmd.startswith('/venv') else cmd, shell=True, capture_output=True, text=True, cwd=cwd, env=env)
     return p.returncode, (p.stdout + p.stderr)[-1500:]
 res = {}
 try:
@@ -31,9 +34,13 @@ if ok:
         if os.path.exists(f'{src}/{f}'):
             shutil.copy(f'{src}/{f}', dst)
     readme = open(f'{src}/README.txt').read() if os.path.exists(f'{src}/README.txt') else ''
+    if os.path.exists(f'{src}/meta.json'):
+        am = json.load(open(f'{src}/meta.json'))
+        readme = readme or (am.get('summary', '') + '\nNeeds: ' + str(am.get('needs', '')))
     json.dump({'id': sid, 'property': prop, 'needs_to_manifest': readme.strip(), 'author': 'independent sub-agent given only the property text',
                'validated': {'tests_with_patch': res['tests'], 'demo_without_patch_exit': res['demo_without'][0],
                              'demo_with_patch_exit': res['demo_with'][0],
-                             'how': 'seeded_validate.py: scratch worktree of /repo HEAD, git apply, pytest tests (144), demo.py <root> with and without'},
+                             'demo_style': STYLE,
+                             'how': 'seeded_validate.py: scratch worktree of /repo HEAD, git apply, pytest tests (144), demo.py with and without'},
                'repo_commit': subprocess.check_output('git -C /repo rev-parse --short HEAD', shell=True, text=True).strip()},
               open(f'{dst}/meta.json', 'w'), indent=1)
